@@ -124,7 +124,15 @@ def _die_with_parent():
 
 def _call(args):
     fn, task = args
-    return fn(task)
+    try:
+        return fn(task)
+    except Exception as e:
+        from .target import HarnessError
+        if isinstance(e, HarnessError) and not getattr(fn, "returns_tuple", False):
+            a = Acc()
+            a.degrade("task %s%r skipped: %s" % (fn.__name__, (task if len(repr(task)) < 80 else "..."), e))
+            return a
+        raise
 
 
 def pmap(fn, tasks, procs=None):
@@ -133,7 +141,7 @@ def pmap(fn, tasks, procs=None):
     tasks = list(tasks)
     procs = min(procs or NPROC, len(tasks)) or 1
     if procs <= 1 or os.environ.get("VERIF_SERIAL"):
-        return [fn(t) for t in tasks]
+        return [_call((fn, t)) for t in tasks]
     ctx = multiprocessing.get_context("fork")
     with ctx.Pool(procs, initializer=_die_with_parent) as pool:
         return pool.map(_call, [(fn, t) for t in tasks], chunksize=1)
